@@ -14,7 +14,8 @@
 (*            error each returned), got (non-error results), err (tag =    *)
 (*            identity of a harness-made error, class, method name in the  *)
 (*            message), yields / yields1 (pairs delivered to a consumer    *)
-(*            that keeps asking / that declines after the first pair).     *)
+(*            that keeps asking / that declines after the first pair;      *)
+(*            seqnil: the iterator returned is nil, and was not ranged).   *)
 (* A panic of the code under test is logged as op "panic", for which there *)
 (* is no step.                                                             *)
 (***************************************************************************)
@@ -52,12 +53,16 @@ Observed(e, m, o) ==
      ELSE \A i \in 1..Len(e.got) : e.got[i] = "zero"
   /\ e.iter = x.iter
   /\ IF ~x.iter
-     THEN /\ e.yields = <<>> /\ e.yields1 = <<>>
+     THEN /\ e.yields = <<>> /\ e.yields1 = <<>> /\ ~e.seqnil
           /\ IF x.error = "stub" THEN e.err = e.prog.err ELSE ErrClass(e.err, x.error, e)
      ELSE IF x.yields = "stub"
-     THEN /\ e.yields = e.prog.yields
-          /\ e.yields1 = SubSeq(e.prog.yields, 1, 1)
+     THEN \* the delegate's iterator, verbatim: also when it is the nil iterator
+          /\ e.seqnil = e.prog.seqnil
+          /\ IF e.seqnil THEN e.yields = <<>> /\ e.yields1 = <<>>
+             ELSE /\ e.yields = e.prog.yields
+                  /\ e.yields1 = SubSeq(e.prog.yields, 1, 1)
      ELSE \* exactly one pair (zero value, error), whatever the consumer answers
+          /\ ~e.seqnil
           /\ Len(e.yields) = 1
           /\ e.yields[1].v = "zero"
           /\ ErrClass(e.yields[1].e, x.error, e)
